@@ -916,4 +916,27 @@ a oneof has at least one member -/
 def acceptedOneof (o : OneofFacts) : Bool :=
   !o.fields.isEmpty && o.fields.all fun f => !f.2 || (o.syn == .proto3 && o.fields.length == 1)
 
+/-! ### custom features (`protoutil.ResolveCustomFeature`, `GetCustomFeatureDefault`) -/
+
+/-- `editions.GetFeatureDefault` over the `edition_defaults` of a custom feature field: the value of the
+entry with the largest edition `≤ ed`; `none` ("no relevant default") if there is none. -/
+def customDefault (ed : Nat) (table : List (Nat × String)) : Option String :=
+  (table.foldl (fun (best : Option (Nat × String)) (e : Nat × String) =>
+      if e.1 ≤ ed then
+        match best with
+        | some b => if b.1 < e.1 then some e else best
+        | none => some e
+      else best) none).map (·.2)
+
+/-- `protoutil.ResolveCustomFeature`: proto2/proto3 elements get the default; otherwise the first explicit
+value walking element → parents → file, else the default. -/
+def customResolve (ed : Nat) (chain : List (Option String)) (table : List (Nat × String)) : Option String :=
+  match customDefault ed table with
+  | none => none
+  | some d =>
+    if ed = 998 ∨ ed = 999 then some d
+    else match chain.findSome? id with
+      | some v => some v
+      | none => some d
+
 end PCV.FieldAttrs
